@@ -130,7 +130,12 @@ def gen_poll_case(rng, nsteps, bias=None):
     while i < nsteps:
         r = rng.below(100)
         h = rng.below(3) if rng.chance(9, 10) else 3
-        if r < 14:
+        if r < 4:
+            # error exit of uv_fs_poll_start: allocation number k fails (k beyond the last one = plain start)
+            lines.append(f"startfail {rng.below(3)} {h} {rng.below(4)} {rng.below(4)} {rng.choice([1, 50, 100])}")
+            if rng.chance(1, 2):
+                lines.append(rng.choice([f"start {h} {rng.below(4)} {rng.below(4)} 50", "run", f"close {h}", f"getpath {h}"]))
+        elif r < 14:
             lines.append(f"start {h} {rng.below(4)} {rng.below(4)} {rng.choice([0, 1, 7, 50, 100, 100])}")
         elif r < 18:
             # one whole poll cycle: timer expires, stat is submitted, completes with the next result
@@ -184,6 +189,7 @@ def monitor_poll(case, rc, out, err):
     now = 0
     ev = None           # current event block (kind, id)
     last_op = None
+    failing = None
     expect_cb = None    # inside statdone: expected callback text or False
     seen_cb = False
     for ln, l in enumerate(lines):
@@ -200,8 +206,14 @@ def monitor_poll(case, rc, out, err):
             continue
         if l.startswith("#"):
             continue
+        if l.startswith("#walk "):
+            continue
         if w[0] == "op":
             last_op = w[1:]
+            failing = None
+            if w[1] == "startfail":
+                failing = int(w[2])
+                last_op = ["start"] + w[3:]
             if w[1] == "advance":
                 now += int(w[2])
             if w[1] in ("stop", "close"):
@@ -211,6 +223,7 @@ def monitor_poll(case, rc, out, err):
             c, p = int(w[1][1:]), int(w[2][1:])
             if last_op and last_op[0] == "start" and c not in sess:
                 h = int(last_op[1])
+                started_ctx = c
                 if cur.get(h) is not None:
                     raise Bad("fspoll-start-while-active", f"line {ln}: uv_fs_poll_start on an active handle created a context")
                 if p != int(last_op[3]):
@@ -236,7 +249,11 @@ def monitor_poll(case, rc, out, err):
                     raise Bad("fspoll-active-after-stop", f"line {ln}: handle active after {last_op[0]}")
             if last_op and last_op[0] == "start":
                 h = int(last_op[1])
-                if w[1] != "0" or w[2] != "a=1":
+                if failing is not None and w[1] == "-12":
+                    # a failed start leaves nothing behind: handle inactive, no context, no request
+                    if w[2] != "a=0" or cur.get(h) is not None:
+                        raise Bad("fspoll-failed-start-left-state", f"line {ln}: after UV_ENOMEM: {l}, live context {cur.get(h)}")
+                elif w[1] != "0" or w[2] != "a=1":
                     raise Bad("fspoll-start-failed", f"line {ln}: {l}")
             continue
         if w[0] == "path":
@@ -365,6 +382,8 @@ def poll_features(out):
             f.add("restart-in-flight")
         if w[0] == "op" and w[1] in ("start", "stop", "close"):
             last = w[1:]
+        if w[0] == "ret" and w[1] == "-12":
+            f.add("start-enomem")
         if w[0] == "cb":
             f.add("cb-err" if w[3] != "0" else "cb-ok")
             if w[3] == "0" and w[4][5:] == w[5][5:] and w[4][5:] != ZERO:
@@ -398,6 +417,19 @@ CHANGE_BITS = 0x2 | 0x4
 RENAME_BITS = 0x100 | 0x200 | 0x400 | 0x800 | 0x40 | 0x80
 
 
+# change classes the property names -> inotify bits that must be registered for them
+NEEDED_MASK = {"content change (IN_MODIFY)": 0x2, "attribute change (IN_ATTRIB)": 0x4, "create (IN_CREATE)": 0x100,
+               "delete (IN_DELETE)": 0x200, "delete of the watched path (IN_DELETE_SELF)": 0x400,
+               "move of the watched path (IN_MOVE_SELF)": 0x800, "move out (IN_MOVED_FROM)": 0x40, "move in (IN_MOVED_TO)": 0x80}
+
+
+def check_mask(mask, ln):
+    missing = [k for k, b in NEEDED_MASK.items() if not mask & b]
+    if missing:
+        raise Bad("fsevent-watch-mask-missing-class",
+                  f"line {ln}: uv_fs_event_start registers inotify mask {mask:#x}: never reported: {', '.join(missing)}")
+
+
 def gen_ev_script_ops(rng):
     ops = []
     for _ in range(rng.range(1, 3)):
@@ -420,7 +452,11 @@ def gen_event_case(rng, nsteps, bias=None):
     for _ in range(nsteps):
         r = rng.below(100)
         h = rng.below(NH)
-        if r < 38:
+        if r < 5:
+            lines.append(f"startfail {rng.below(2)} {h} {rng.below(4)} {rng.range(1, 3)} {rng.below(2)}")
+            if rng.chance(1, 2):
+                lines.append(rng.choice([f"start {h} {rng.below(4)} {rng.range(1, 3)} 0", f"stop {h}", f"close {h}"]))
+        elif r < 38:
             wd = rng.range(1, 3) if rng.chance(14, 15) else 0
             if bias == "shared" and rng.chance(1, 2):
                 wd = 1
@@ -467,6 +503,7 @@ def monitor_event1(case, rc, out, err, use_optional):
     recs = None
     st = {"idx": -1, "pending": set(), "optional": set(), "delivered": set(), "stopped": set()}
     ever_stopped = set()
+    pending_watch = None
 
     def close_record(ln):
         if 0 <= st["idx"] < len(recs):
@@ -487,8 +524,14 @@ def monitor_event1(case, rc, out, err, use_optional):
             continue
         if l.startswith("#harness-failure"):
             raise Bad("fsevent-harness-failure", l)
+        if w[0] == "addwatch":
+            check_mask(int(w[2][5:]), ln)
+            pending_watch = int(w[1]) if int(w[1]) > 0 else None
+            continue
         if w[0] == "op":
             last_op = w[1:]
+            if w[1] == "startfail":
+                last_op = ["start"] + w[3:]
             if w[1] in ("stop", "close"):
                 h = int(w[2])
                 if recs is not None:
@@ -506,6 +549,13 @@ def monitor_event1(case, rc, out, err, use_optional):
                 next_record(ln)
             continue
         if w[0] == "ret":
+            if last_op and last_op[0] == "start" and w[1] != "0":
+                # failed start: handle not active, and a kernel watch created for it alone must be gone again
+                if w[2] != "a=0" and w[1] != "-22":
+                    raise Bad("fsevent-failed-start-left-state", f"line {ln}: {l}")
+                if pending_watch is not None and not any(v == pending_watch for v in watch.values()):
+                    raise Bad("fsevent-failed-start-leaks-watch", f"line {ln}: inotify watch {pending_watch} left without any handle")
+            pending_watch = None
             if last_op and last_op[0] == "start" and w[1] == "0":
                 h, wd = int(last_op[1]), int(last_op[3])
                 watch[h] = wd
@@ -542,6 +592,8 @@ def monitor_event1(case, rc, out, err, use_optional):
             continue
         if w[0] == "rmwatch":
             wd = int(w[1])
+            if pending_watch == wd:
+                pending_watch = None
             still = [h for h in range(NH) if watch[h] == wd]
             if still:
                 raise Bad("fsevent-watch-removed-while-watched", f"line {ln}: inotify_rm_watch({wd}) while handles {still} watch it")
@@ -552,7 +604,7 @@ def monitor_event1(case, rc, out, err, use_optional):
             continue
         if w[0] == "bad-op":
             raise Bad("fsevent-bad-op", f"line {ln}: generator produced an op the harness rejects")
-        if w[0] in ("addwatch", "misuse", "script", "noinotify"):
+        if w[0] in ("misuse", "script", "noinotify"):
             continue
         raise Bad("fsevent-unparsed", f"line {ln}: {l}")
     if not lines or not lines[-1].startswith("loopclose"):
@@ -600,6 +652,10 @@ def event_features(out):
                 f.add("start-in-callback")
         if w[0] == "dispatched":
             indisp = False
+        if w[0] == "ret" and w[1] == "-12":
+            f.add("start-enomem")
+        if w[0] == "ret" and w[1] == "-2":
+            f.add("start-add-watch-fails")
         if w[0] == "rmwatch":
             f.add("list-freed")
     return f
@@ -670,8 +726,37 @@ def gen_real_case(rng, nsteps):
                     files.discard(f)
                     gone.add(f)
                     lines += [f"unlink {f}", "settle"]
+    # finale: changes of the watched paths *themselves*, with several handles on them and on their parent
+    targets = [p for p in ["f1", "d1", "d1/g1"] if p not in gone]
+    for tgt in rng.choice([["f1"], ["d1"], ["f1", "d1"], ["d1/g1"], ["d1/g1", "d1"]]):
+        if tgt not in targets:
+            continue
+        hs = list(range(NH))
+        for h in hs:
+            lines.append(f"stop {h}")
+        parent = "d1" if tgt.startswith("d1/") else "."
+        lines += [f"startp 0 0 {tgt}", f"startp 1 1 {tgt}", f"startp 2 2 {parent}"]
+        if rng.chance(1, 2):
+            lines.append(f"startp 3 3 {parent}")
+        kind = rng.choice(["chmod", "rename", "unlink", "chmod+rename", "moveout"])
+        if tgt == "d1" and kind in ("unlink", "moveout"):
+            kind = "rename"
+        if "chmod" in kind:
+            lines += [f"chmod {tgt}", "settle"]
+        if "rename" in kind:
+            lines += [f"rename {tgt} {tgt}r", "settle"]
+        elif kind == "unlink":
+            lines += [f"unlink {tgt}", "settle"]
+        elif kind == "moveout":
+            dst = "moved" if tgt.startswith("d1/") else "d1/moved"
+            lines += [f"rename {tgt} {dst}", "settle"]
+        if tgt == "d1" and "rename" in kind:
+            break                                   # paths below d1 have changed their names
     lines.append("end")
     return lines
+
+
+SELF_OWED = [0]
 
 
 def monitor_real(case, rc, out, err):
@@ -728,6 +813,7 @@ def monitor_real(case, rc, out, err):
                     owed.append((h, base(p), cls, " ".join(last_op)))
                 if watch[h] == p:
                     owed.append((h, base(p), cls, " ".join(last_op)))
+                    SELF_OWED[0] += 1
                     if op in ("unlink", "rename"):
                         orphan.add(h)
                 if op == "rename" and watch[h] == dname(last_op[2]):
@@ -745,6 +831,9 @@ def monitor_real(case, rc, out, err):
             continue
         if w[0] == "bad-op":
             raise Bad("fsevent-real-bad-op", f"line {ln}: generator produced an op the harness rejects")
+        if w[0] == "addwatch":
+            check_mask(int(w[2][5:]), ln)
+            continue
         if w[0] in ("misuse", "script"):
             continue
         raise Bad("fsevent-real-unparsed", f"line {ln}: {l}")
@@ -911,7 +1000,8 @@ def run(ctx):
                 ctx.violation(r.sig, f"C17 (real kernel): {r.what}", {"mode": "real", "ops": small})
                 break
         done += len(cases)
-    ctx.notes["real_kernel"] = f"{done} programs on a scratch directory, {ncbs} callbacks checked by the monitor"
+    ctx.notes["real_kernel"] = (f"{done} programs on a scratch directory, {ncbs} callbacks checked by the monitor, "
+                                f"{SELF_OWED[0]} owed reports for changes of the watched path itself (chmod/rename/unlink/move-out)")
     if ctx.broken and not ctx.violations:
         ctx.log("obligation broken; searching for a failing input with the monitors")
         srng = SplitMix(ctx.seed + 1717)
